@@ -1,5 +1,8 @@
 import OpusProofs.SilkPlcGlue
 import OpusProofs.SilkPlcConceal
+import OpusProofs.SilkPlcInv
+import OpusProofs.SilkPlcDecay
+import OpusProofs.SilkPlcCng
 /-
   OpusProps.C09SilkPlc — property theorems of the C09 extension `SilkPlc`: SILK's packet-loss concealment, comfort
   noise and frame glue (silk/PLC.c, silk/CNG.c) as the bit-exact value model OpusModel.SilkPlc{ConcealFix,Conceal,
@@ -29,7 +32,7 @@ theorem glue_identity_when_quieter (s : GlueSt) (frame : List Int) (h0 : s.lossC
   dsimp only
   simp only [h0, ne_eq, not_true_eq_false, ↓reduceIte]
   split
-  · first | rfl | rw [if_neg hq]
+  · rfl
   · rfl
 
 example : ¬ (glueNormalize 900000 0 (sumSqrShift [100, -100, 50]).1 (sumSqrShift [100, -100, 50]).2).2 >
@@ -152,5 +155,84 @@ theorem ltp_limit_counterexample :
     updLtpCoef 256 = [0, 0, -4915, 0, 0] ∧
     (SilkPlcGains.gainSetup 0 true [0, 0, -4915, 0, 0] 0 15565 0).1 = 20234 ∧
     (SilkPlcGains.conceal 0 true 4 [0, 0, -4915, 0, 0] 0 15565 0).2 = 16480 := by decide +kernel
+
+
+/-! ### the PLC state invariant, for every history -/
+
+/-- The example decoder state is a legal configuration and its PLC state satisfies the invariant. -/
+theorem exDec_ok : DecCfg exDec ∧ PlcInv exDec.plc :=
+  ⟨⟨by unfold FsOk; decide, by decide, by decide, by decide, by decide, by decide⟩,
+   ⟨rfl, by decide, rfl, by decide, by decide, fun _ => by decide⟩⟩
+
+/-- `PlcInv` (OpusProofs/SilkPlcInv.lean: 5 int16 taps, 16 LPC entries, `randScale_Q14 ∈ [0, 32767]`,
+    `prevLTP_scale_Q14 ∈ [0, 2^14]`, and once used at a rate: `2 ms ≤ pitchL_Q8 ≤ 18 ms`, two positive `prevGain_Q16`)
+    holds for the zeroed structure and after the rate check / silk_PLC_Reset of silk_PLC (PLC.c:61-70, :84-87) at any
+    decoder configuration, where it also makes `sPLC.fs_kHz` the decoder's rate. -/
+theorem plc_inv_reset : PlcInv plcZero ∧
+    ∀ d : Dec, DecCfg d → PlcInv d.plc → PlcInv (plcRateCheck d) ∧ (plcRateCheck d).fsKHz = d.fsKHz :=
+  ⟨plcZero_inv, plcRateCheck_inv⟩
+
+example : DecCfg { exDec with plc := plcZero } :=
+  ⟨exDec_ok.1.fs, exDec_ok.1.nb, exDec_ok.1.sl, exDec_ok.1.fl, exDec_ok.1.mem, exDec_ok.1.order⟩
+
+/-- silk_PLC, both branches (silk_PLC_update on a received frame, silk_PLC_conceal on a lost one): for every decoder
+    configuration of silk_decoder_set_fs, every state satisfying `PlcInv` (at whatever previous rate) and — on received
+    frames — every in-range control structure (`CtrlOk`: lags in [2 ms, 18 ms] when voiced, positive gains,
+    LTP_scale ∈ [0, 2^14]; ANY int16 LTP taps, so all codebook entries incl. the one behind `ltp_limit_counterexample`),
+    the call never aborts (`.abort` / `.oob`) and `PlcInv` holds afterwards at the decoder's rate. -/
+theorem plc_inv_frame (d : Dec) (c : Ctrl) (lost : Bool) (hc : DecCfg d) (hk : lost = false → CtrlOk d c)
+    (hi : PlcInv d.plc) : ∃ o, silkPLC d c lost = .ok o ∧ PlcInv o.dec.plc ∧ o.dec.plc.fsKHz = d.fsKHz :=
+  silkPLC_inv d c lost hc hk hi
+
+example : DecCfg exDec ∧ PlcInv exDec.plc := exDec_ok
+
+/-- `PlcInv` after EVERY history: starting from the zeroed structure, after any sequence of received frames, lost
+    frames and decoder resets — each frame at any legal decoder configuration (the rate may change between frames), the
+    rest of the decoder state arbitrary, received frames with in-range controls — no call of silk_PLC aborts and the
+    invariant holds. -/
+theorem plc_inv_history (evs : List PlcEv) (h : ∀ e ∈ evs, EvOk e) :
+    ∃ q, plcRun plcZero evs = some q ∧ PlcInv q :=
+  plcRun_inv evs plcZero plcZero_inv h
+
+example : ∀ e ∈ [PlcEv.frame exDec exCtrl true, .reset, .frame exDec exCtrl true], EvOk e := by
+  intro e he
+  simp only [List.mem_cons, List.mem_nil_iff, or_false] at he
+  rcases he with rfl | rfl | rfl
+  · exact ⟨exDec_ok.1, fun h => by simp at h⟩
+  · trivial
+  · exact ⟨exDec_ok.1, fun h => by simp at h⟩
+
+/-- C09 "falls well below the pre-loss level under sustained loss", for the concealment excitation gain: from the second
+    lost frame of a burst on (`lossCnt ≥ 1`), after n further lost frames — whatever the rest of the decoder state does —
+    `32768^n · randScale_Q14 ≤ 29491^n · (its value before)`, i.e. at most 0.9^n of it (29491 = the larger of the
+    regenerated `PLC_RAND_ATTENUATE_V/UV_Q15[1]`); the run never aborts and `PlcInv` holds.  (The per-frame bound uses one
+    sub-frame only; the harmonic taps are covered qualitatively by `conceal_gain_decreasing`.) -/
+theorem conceal_gain_after_n (evs : List PlcEv) (p : Plc) (hi : PlcInv p) (h : ∀ e ∈ evs, BurstEv e) :
+    ∃ q, plcRun p evs = some q ∧ PlcInv q ∧ 0 ≤ q.randScale ∧
+      (32768 : Int) ^ evs.length * q.randScale ≤ (29491 : Int) ^ evs.length * p.randScale :=
+  burst_decay evs p hi h
+
+example : ∀ e ∈ [PlcEv.frame exDec exCtrl true, .frame exDec exCtrl true], BurstEv e := by
+  intro e he
+  simp only [List.mem_cons, List.mem_nil_iff, or_false] at he
+  rcases he with rfl | rfl <;> exact ⟨rfl, exDec_ok.1, by decide⟩
+
+
+/-! ### silk_CNG -/
+
+/-- "every output sample is an int16", comfort-noise stage: whenever silk_CNG returns (CNG.c:79-188), every sample of
+    the frame it hands back is in [-32768, 32767] (`silk_ADD_SAT16` at :180 when noise is added; the int16 input frame
+    is untouched otherwise) — for every CNG state and every decoder state.  (Totality of silk_CNG is not proved.) -/
+theorem cng_output_int16 (x : CngIn) (c : Cng) (frame f : List Int) (c' : Cng)
+    (h : silkCNG x c frame = .ok (f, c')) (hf : ∀ y ∈ frame, -32768 ≤ y ∧ y ≤ 32767) :
+    ∀ y ∈ f, -32768 ≤ y ∧ y ≤ 32767 :=
+  silkCNG_frame_int16 x c frame f c' h hf
+
+example : (match silkCNG { fsKHz := 8, nbSubfr := 2, subfrLength := 40, lpcOrder := 10, lossCnt := 0, prevSignalType := 1,
+                           prevNLSF := [], excQ14 := [], gains := [], randScale := 0, prevGain1 := 65536 }
+                         { excBuf := [], smthNLSF := List.replicate 16 0, synthState := List.replicate 16 7, smthGain := 0,
+                           randSeed := 1, fsKHz := 8 } [100, -32768, 32767] with
+           | .ok (f, c') => decide (f = [100, -32768, 32767] ∧ c'.synthState.take 10 = List.replicate 10 0)
+           | _ => false) = true := by decide +kernel
 
 end OpusProps.C09SilkPlc
